@@ -28,6 +28,10 @@ CLAIMED = {
     text="ConsistentHashRing.get_nodes (ring walk with a quantified loop invariant and the pigeonhole exit argument), ConsistentHashingRouter.getDestinations (both branches, loop contracts with ghost first-occurrence witnesses), FastHashRing.get_nodes and _update_nodes are verified from source for every ring, node set, key, replication factor and DIVERSE_REPLICAS value: the result is duplicate-free, consists only of configured destinations with their configured port, has exactly min(RF, eligible) elements and no two share a server when diverse.",
     note="bisect_left / sorted / set and list models and three finite-set cardinality lemmas are assumed (A-LIB); the ring position is an uninterpreted function of the key (pinned in C06), which is also what makes the result a function of (ring, key); I_ring / I_router / I_fast are preconditions established by add/remove (C06); aggregated routers are C16; A-ENGINE, A-SMT",
     tech=TECH + "; inductive loop invariants over a symbolic ring, ghost witnesses"),
+  'C06': dict(
+    text="The hash functions are verified from source against a specification pinned in the contract (FNV-1a loop invariant over 32-bit vectors with the published offset basis and prime; carbonHash composes fold / md5-prefix exactly as the published algorithm); get_node is proved to be the bisect lookup with wrap-around; get_nodes is proved to yield the nodes in order of their first entry along the cyclic walk (the carrying contract of minimal disruption); remove_node is proved to delete exactly the node's entries and keep all others in order; minimal disruption is a lemma over these contracts. Ring construction (add_node), compatibility with the published algorithm over ALL 65536 positions, and history independence are decided by a bounded native comparison with an independent specification; history independence is a recorded known finding when replica positions collide.",
+    note="add_node / __init__ are not under a discharged contract (bounded comparison with /verif/spec/ring_spec.py only, labelled bounded); md5, UTF-8, int(.,16), bisect_left and comprehension filtering are assumed library contracts; known finding D10 (collision-bumped entries survive removal) with native witness; A-ENGINE, A-SMT",
+    tech=TECH + "; bit-vector loop invariant, pinned spec functions, lemma over contracts; bounded native comparison for ring construction and history independence"),
   'C07': dict(
     text="Every queue operation of the relay client (enqueue, enqueue_from_left, takeSomeFromQueue with a loop invariant, sendDatapoint, sendHighPriorityDatapoint, scheduleSend, the protocol's sendQueued / sendDatapointsNow, checkQueue, the two queue callbacks, destinationDown with a per-item re-injection contract) is verified from source against a whole-view contract over the queue as a sequence: arrivals append (self-metrics prepend), a send writes exactly the prefix of length min(batch, |queue|) and leaves the rest, a drop happens only without room below the hard limit and is counted, the limit is never exceeded by normal items, a removed destination re-injects every item in order; no AlreadyCalledError can occur.",
     note="A-TWISTED-DEFER (Deferred/callLater semantics modelled); single reactor thread; the history statement (accepted == written ++ queue) is the induction over events of the per-operation view equations (meta-step); re-injection does not re-enter the drained queue (router no longer returns the destination); CarbonClientManager, FakeClientFactory, SSL set-up, ratio reset not under contract; A-ENGINE, A-SMT",
